@@ -772,6 +772,24 @@ t.wrap('Ordering::Greater => ', 'current = &mut data_node.right', '''proof {
                                         assert(node_with(cur0, fcur, 1, *final(current)));
                                     }''', after=True)
 emit(t)
+t=I(MAP, 'iter')
+t.sig(ret='it', spec='''requires self.wf(),
+        ensures
+            // the iterator will yield exactly the entries of the map, in strictly increasing key order, each once
+            it.rem().len() == self@.dom().len(),
+            forall|i: int, j: int| 0 <= i < j < it.rem().len() ==> (#[trigger] it.rem()[i]).0 < (#[trigger] it.rem()[j]).0,
+            forall|i: int| 0 <= i < it.rem().len() ==> self@.contains_key((#[trigger] it.rem()[i]).0) && self@[it.rem()[i].0] == it.rem()[i].1,
+            forall|k: u32| #[trigger] self@.contains_key(k) ==> exists|i: int| 0 <= i < it.rem().len() && (#[trigger] it.rem()[i]).0 == k,''',
+      prelude='''proof {
+            let (lo, hi) = choose|lo: int, hi: int| #[trigger] bst(self.root, lo, hi);
+            lemma_inorder_view(self.root, lo, hi); lemma_view_len(self.root, lo, hi);
+        }''')
+t.tail('''proof {
+            assert(derefs(r__.current_mappings@) =~= Seq::<PrefixTree2>::empty());
+            assert(stack_rem(r__.stack@) =~= Seq::<(u32, V)>::empty());
+            assert(r__.rem() =~= inorder_m(self.root, Seq::empty()));
+        }''')
+emit(t)
 t=M('get', 'let ghost (glo, ghi) = choose|lo: int, hi: int| #[trigger] bst(self.root, lo, hi);')
 t=t.sub('        loop {','''        loop
             invariant mappings@.len() == 0, tb(*current),
